@@ -1116,4 +1116,419 @@ theorem loadNames_sim (c : Cls) (enc : Enc) (hdr : Bytes) (D : Bytes) (K : Strea
         rw [hnE] at hE; rw [hnL]
         cases hE; exact ⟨_, rfl, hP, hF, hO⟩
 
+/-! #### segments, lazy run against eager run -/
+
+theorem segLoad_snd_flagEq (c : Cls) (enc : Enc) (tr : List Trans) (ls ls' : LoadSt)
+    (h : FlagEq ls.st ls'.st) (off : Int) (isLazy : Bool) :
+    (segLoad c enc tr ls off isLazy).2 = (segLoad c enc tr ls' off isLazy).2 := by
+  obtain ⟨h1, h2, h3⟩ := hdrRead_flagEq tr ls.st ls'.st h off (phdrSize c)
+  rw [segLoad_eq, segLoad_eq]
+  simp only []
+  have e1 : (hdrRead tr ls.st off (phdrSize c)).2.1 = (hdrRead tr ls'.st off (phdrSize c)).2.1 := by rw [h1]
+  have e2 : (hdrRead tr ls.st off (phdrSize c)).2.2 = (hdrRead tr ls'.st off (phdrSize c)).2.2 := by rw [h1]
+  rw [e1, e2]
+  cases isLazy
+  · simp only [Bool.false_eq_true, if_false]
+    rw [segLoadData_snd, segLoadData_snd]
+    simp only []
+    rw [segOutcome_indep c tr _ _ h3.1 h3.2.1]
+  · rfl
+
+theorem seg_read_fail (ls : LoadSt) (g : Seg) (h63 : ls.st.data.length < 9223372036854775808)
+    (hss : ls.st.fail = false → g.streamSize = BitVec.ofNat 64 ls.st.data.length)
+    (g1 : ¬ BitVec.ult g.streamSize g.offset = true)
+    (g2 : ¬ (BitVec.ult g.streamSize g.filesz || BitVec.ult (g.streamSize - g.offset) g.filesz) = true) :
+    (mergeFlags ls.st (segReadSt ls.st g.offset g.filesz).1).fail = ls.st.fail := by
+  have hm : ∀ (r : IStream), (mergeFlags ls.st r).fail = (r.fail || ls.st.fail) := fun r => rfl
+  cases hf : ls.st.fail
+  · have hs := hss hf
+    rw [hs] at g1 g2
+    have ho := g.offset.isLt; have hz := g.filesz.isLt
+    have hin : g.offset.toNat + g.filesz.toNat ≤ ls.st.data.length := by
+      simp only [BitVec.ult, BitVec.toNat_sub, BitVec.toNat_ofNat, Nat.reducePow,
+        Bool.or_eq_true, decide_eq_true_eq, not_or, Nat.not_lt] at g1 g2
+      omega
+    rw [segReadSt_inside ls.st g.offset g.filesz hin h63]
+    simp [mergeFlags, IStream.clear, hf]
+  · simp [hm, hf]
+
+theorem segLoadData_fail_preserved (c : Cls) (ls : LoadSt) (g : Seg)
+    (h63 : ls.st.data.length < 9223372036854775808)
+    (hss : ls.st.fail = false → g.streamSize = BitVec.ofNat 64 ls.st.data.length) :
+    (segLoadData c [] ls g).1.st.fail = ls.st.fail := by
+  rw [segLoadData_eq]
+  simp only [secOff_nil]
+  cases c <;> simp only [] <;>
+   (split
+    · rfl
+    · split
+      · rfl
+      · split
+        · rfl
+        · split
+          · rfl
+          · rename_i g1 g2 g3
+            split <;> exact seg_read_fail ls g h63 hss g1 g2)
+
+theorem segLoad_st_flagEq (c : Cls) (enc : Enc) (lsL lsE : LoadSt) (h : FlagEq lsL.st lsE.st)
+    (h63 : lsE.st.data.length < 9223372036854775808) (off : Int) :
+    FlagEq (segLoad c enc [] lsL off true).1.st (segLoad c enc [] lsE off false).1.st := by
+  obtain ⟨h1, h2, h3⟩ := hdrRead_flagEq [] lsL.st lsE.st h off (phdrSize c)
+  rw [segLoad_eq, segLoad_eq]
+  simp only [if_true, Bool.false_eq_true, if_false]
+  refine ⟨by simp [h.1], by simp [h.2.1], ?_⟩
+  rw [segLoadData_fail_preserved c _ _ (by simpa using h63)
+    (by intro hf; simp only [decodePhdr_streamSize, segInit]; simpa using hdrRead_ss lsE.st off (phdrSize c) hf)]
+  exact h3.2.2
+
+def StableS (c : Cls) (D : Bytes) (K : StreamKind) (ge : Seg) : Prop :=
+  ∀ ls, Over D K ls → segObs (segGetData c [] ls ge).2 = segObs ge
+
+def SegPair (c : Cls) (D : Bytes) (K : StreamKind) (gl ge : Seg) : Prop :=
+  ∃ g0, SegFresh g0 ∧ (gl = g0 ∨ gl = (segApply g0 (segOutcomeOf c [] D K g0)).1) ∧
+    segObs (segApply g0 (segOutcomeOf c [] D K g0)).1 = segObs ge ∧ StableS c D K ge
+
+theorem SegPair.obs {c : Cls} {D : Bytes} {K : StreamKind} {gl ge : Seg} (h : SegPair c D K gl ge)
+    (ops : List DataOp) (ls1 ls2 : LoadSt) (h1 : Over D K ls1) (h2 : Over D K ls2) :
+    segObs (segGetData c [] (runSegOps c [] ls1 gl ops).1 (runSegOps c [] ls1 gl ops).2).2 =
+      segObs (segGetData c [] ls2 ge).2 := by
+  obtain ⟨g0, hf, hinv, hobs, hst⟩ := h
+  obtain ⟨g1, g2, g3⟩ := runSegOps_inv c [] D K g0 hf ops ls1 gl h1.1 h1.2 hinv
+  rw [← g1, ← g2] at g3
+  rw [seg_request_inv c [] _ g0 _ hf g3, g1, g2, hobs, hst ls2 h2]
+
+theorem segGetData_snd (c : Cls) (tr : List Trans) (ls : LoadSt) (g : Seg) :
+    (segGetData c tr ls g).2 =
+      if !g.isLoaded then (segApply g (segOutcome c tr ls.st g.stype g.filesz g.offset g.streamSize)).1 else g := by
+  rw [segGetData_eq]; split
+  · rw [segLoadData_snd]
+  · rfl
+
+theorem segOutcome_over (c : Cls) (D : Bytes) (K : StreamKind) (s : IStream) (hd : s.data = D) (hk : s.kind = K)
+    (g : Seg) : segOutcome c [] s g.stype g.filesz g.offset g.streamSize = segOutcomeOf c [] D K g :=
+  segOutcome_indep c [] s { data := D, kind := K } hd hk _ _ _ _
+
+theorem stableS_apply (c : Cls) (D : Bytes) (K : StreamKind) (g : Seg) (hl : g.isLoaded = false) :
+    StableS c D K (segApply g (segOutcomeOf c [] D K g)).1 := by
+  intro ls' hO'
+  rw [segGetData_snd]
+  have ho := segOutcome_over c D K ls'.st hO'.1 hO'.2
+  cases hq : segOutcomeOf c [] D K g with
+  | none =>
+    simp only [segApply, hl, Bool.not_false, if_true]
+    rw [ho g, hq]
+  | some x =>
+    cases x with
+    | none =>
+      simp only [segApply, hl, Bool.not_false, if_true]
+      have := ho { g with data := none }
+      simp only [] at this
+      rw [this]
+      have e : segOutcomeOf c [] D K { g with data := none } = segOutcomeOf c [] D K g := rfl
+      rw [e, hq]
+    | some d => simp [segApply]
+
+theorem eager_stableS (c : Cls) (enc : Enc) (D : Bytes) (K : StreamKind) (ls : LoadSt) (hO : Over D K ls)
+    (off : Int) : StableS c D K (segLoad c enc [] ls off false).2.1 := by
+  rw [segLoad_eq]
+  simp only [Bool.false_eq_true, if_false]
+  rw [segLoadData_snd]
+  simp only []
+  rw [segOutcome_over c D K _ (by simp [hO.1]) (by simp [hO.2])]
+  apply stableS_apply
+  simp [segInit]
+
+theorem segPair_of_load (c : Cls) (enc : Enc) (D : Bytes) (K : StreamKind) (lsL lsE : LoadSt)
+    (h : FlagEq lsL.st lsE.st) (hE : Over D K lsE) (off : Int) :
+    SegPair c D K (segLoad c enc [] lsL off true).2.1 (segLoad c enc [] lsE off false).2.1 := by
+  rw [segLoad_snd_flagEq c enc [] lsL lsE h off true]
+  have hf := segLoad_lazy_fresh c enc [] lsE off
+  have hr := seg_request_inv c [] lsE _ _ hf (Or.inl rfl)
+  have he := segGetData_lazy_eq_eager c enc [] lsE lsE off rfl rfl
+  rw [hr, hE.1, hE.2] at he
+  exact ⟨_, hf, Or.inl rfl, he, eager_stableS c enc D K lsE hE off⟩
+
+theorem segApply_upd (g : Seg) (o : Option (Option Bytes)) (i : Nat) (m : List (BitVec 16)) :
+    (segApply { g with index := i, secs := m } o).1 = { (segApply g o).1 with index := i, secs := m } := by
+  rcases o with _ | _ | d <;> rfl
+
+/-- recording index and members (the same on both sides) keeps a pair a pair -/
+theorem SegPair.upd {c : Cls} {D : Bytes} {K : StreamKind} {gl ge : Seg} (h : SegPair c D K gl ge)
+    (i : Nat) (m : List (BitVec 16)) :
+    SegPair c D K { gl with index := i, secs := m } { ge with index := i, secs := m } := by
+  obtain ⟨g0, hf, hinv, hobs, hst⟩ := h
+  have ho : ∀ g : Seg, segOutcomeOf c [] D K { g with index := i, secs := m } = segOutcomeOf c [] D K g := fun _ => rfl
+  have hap := segApply_upd g0 (segOutcomeOf c [] D K g0) i m
+  refine ⟨{ g0 with index := i, secs := m }, hf, ?_, ?_, ?_⟩
+  · rw [ho]
+    rcases hinv with h | h
+    · left; rw [h]
+    · right; rw [h]; exact hap.symm
+  · rw [ho, hap]
+    show ({ segObs (segApply g0 (segOutcomeOf c [] D K g0)).1 with index := i, secs := m } : SegObs) =
+      { segObs ge with index := i, secs := m }
+    rw [hobs]
+  · intro ls hls
+    have h1 := hst ls hls
+    rw [segGetData_snd] at h1 ⊢
+    simp only []
+    have e : segOutcome c [] ls.st ge.stype ge.filesz ge.offset ge.streamSize = segOutcome c [] ls.st ge.stype ge.filesz ge.offset ge.streamSize := rfl
+    split
+    · rename_i hl
+      simp only [hl, if_true] at h1
+      have := segApply_upd ge (segOutcome c [] ls.st ge.stype ge.filesz ge.offset ge.streamSize) i m
+      rw [this]
+      show ({ segObs (segApply ge _).1 with index := i, secs := m } : SegObs) = { segObs ge with index := i, secs := m }
+      rw [h1]
+    · rfl
+
+theorem memberOf_congr (g g' : Seg) (b b' : SecBuf)
+    (hg : (g.stype, g.offset, g.filesz, g.vaddr, g.memsz) = (g'.stype, g'.offset, g'.filesz, g'.vaddr, g'.memsz))
+    (hb : (b.flags, b.addr, b.size, b.offset) = (b'.flags, b'.addr, b'.size, b'.offset)) :
+    memberOf g b = memberOf g' b' := by
+  simp only [Prod.mk.injEq] at hg hb
+  unfold memberOf
+  rw [hg.1, hg.2.1, hg.2.2.1, hg.2.2.2.1, hg.2.2.2.2, hb.1, hb.2.1, hb.2.2.1, hb.2.2.2]
+
+theorem segApply_hdr (g : Seg) (o : Option (Option Bytes)) :
+    ((segApply g o).1.stype, (segApply g o).1.offset, (segApply g o).1.filesz, (segApply g o).1.vaddr,
+      (segApply g o).1.memsz) = (g.stype, g.offset, g.filesz, g.vaddr, g.memsz) := by
+  rcases o with _ | _ | d <;> rfl
+
+theorem SegPair.hdr {c : Cls} {D : Bytes} {K : StreamKind} {gl ge : Seg} (h : SegPair c D K gl ge) :
+    (gl.stype, gl.offset, gl.filesz, gl.vaddr, gl.memsz) = (ge.stype, ge.offset, ge.filesz, ge.vaddr, ge.memsz) := by
+  obtain ⟨g0, hf, hinv, hobs, hst⟩ := h
+  have h1 : (gl.stype, gl.offset, gl.filesz, gl.vaddr, gl.memsz) = (g0.stype, g0.offset, g0.filesz, g0.vaddr, g0.memsz) := by
+    rcases hinv with h | h
+    · rw [h]
+    · rw [h]; exact segApply_hdr _ _
+  rw [h1, ← segApply_hdr g0 (segOutcomeOf c [] D K g0)]
+  simp only [segObs, SegObs.mk.injEq] at hobs
+  simp only [Prod.mk.injEq]
+  exact ⟨hobs.2.1, hobs.2.2.2.1, hobs.2.2.2.2.2.2.1, hobs.2.2.2.2.1, hobs.2.2.2.2.2.2.2.1⟩
+
+theorem members_sim (c : Cls) (D : Bytes) (K : StreamKind) (gl ge : Seg)
+    (hg : (gl.stype, gl.offset, gl.filesz, gl.vaddr, gl.memsz) = (ge.stype, ge.offset, ge.filesz, ge.vaddr, ge.memsz)) :
+    ∀ (l m : List SecBuf), Forall2 (SecPair c D K) l m →
+      (l.filter (memberOf gl)).map (fun b => BitVec.ofNat 16 b.index) =
+      (m.filter (memberOf ge)).map (fun b => BitVec.ofNat 16 b.index) := by
+  intro l m h
+  induction h with
+  | nil => rfl
+  | @cons a b l m hab _ ih =>
+    have hf := hab.fields
+    simp only [hdrFields, Prod.mk.injEq] at hf
+    have hm : memberOf gl a = memberOf ge b :=
+      memberOf_congr gl ge a b hg (by simp only [Prod.mk.injEq]; exact ⟨hf.2.2.2.2.1, hf.2.2.2.2.2.1, hf.2.2.2.2.2.2.2.1, hf.2.2.2.2.2.2.1⟩)
+    simp only [List.filter_cons, hm]
+    split
+    · simp only [List.map_cons, ih, hf.1]
+    · exact ih
+
+theorem segLoad_over (c : Cls) (enc : Enc) (tr : List Trans) (ls : LoadSt) (off : Int) (isLazy : Bool) :
+    (segLoad c enc tr ls off isLazy).1.st.data = ls.st.data ∧
+    (segLoad c enc tr ls off isLazy).1.st.kind = ls.st.kind := by
+  rw [segLoad_eq]; simp only []
+  cases isLazy <;> simp
+
+theorem segLoad_lazy_ok (c : Cls) (enc : Enc) (tr : List Trans) (ls : LoadSt) (off : Int) :
+    (segLoad c enc tr ls off true).2.2 = true := by
+  rw [segLoad_eq]; rfl
+
+theorem loadSegmentsLoop_sim (c : Cls) (enc : Enc) (D : Bytes) (K : StreamKind)
+    (h63 : D.length < 9223372036854775808) (phoff : Int) (entsize : Nat) (secsL secsE : List SecBuf)
+    (hsec : Forall2 (SecPair c D K) secsL secsE) :
+    ∀ (n i : Nat) (lsL lsE : LoadSt) (accL accE : List Seg),
+      FlagEq lsL.st lsE.st → Over D K lsE → Forall2 (SegPair c D K) accL accE →
+      (loadSegmentsLoop c enc [] false phoff entsize secsE n i lsE accE).2.2 = true →
+      (loadSegmentsLoop c enc [] true phoff entsize secsL n i lsL accL).2.2 = true ∧
+      Forall2 (SegPair c D K) (loadSegmentsLoop c enc [] true phoff entsize secsL n i lsL accL).2.1
+        (loadSegmentsLoop c enc [] false phoff entsize secsE n i lsE accE).2.1 := by
+  intro n
+  induction n with
+  | zero =>
+    intro i lsL lsE accL accE hF hO hA _
+    simp only [loadSegmentsLoop]
+    exact ⟨by simp, forall2_reverse hA⟩
+  | succ n ih =>
+    intro i lsL lsE accL accE hF hO hA hok
+    have hp := segPair_of_load c enc D K lsL lsE hF hO (phoff + Int.ofNat i * Int.ofNat entsize)
+    have hf' := segLoad_st_flagEq c enc lsL lsE hF (by rw [hO.1]; exact h63) (phoff + Int.ofNat i * Int.ofNat entsize)
+    have ho' := segLoad_over c enc [] lsE (phoff + Int.ofNat i * Int.ofNat entsize) false
+    have hlok := segLoad_lazy_ok c enc [] lsL (phoff + Int.ofNat i * Int.ofNat entsize)
+    simp only [loadSegmentsLoop] at hok ⊢
+    generalize segLoad c enc [] lsE (phoff + Int.ofNat i * Int.ofNat entsize) false = xE at *
+    generalize segLoad c enc [] lsL (phoff + Int.ofNat i * Int.ofNat entsize) true = xL at *
+    obtain ⟨lsE', gE, okE⟩ := xE
+    obtain ⟨lsL', gL, okL⟩ := xL
+    simp only at hp hf' ho' hlok hok ⊢
+    subst hlok
+    by_cases hcond : (!okE || lsE'.st.fail) = true
+    · simp only [hcond, if_true] at hok
+      exact absurd hok (by simp)
+    · simp only [hcond, Bool.false_eq_true, if_false] at hok ⊢
+      simp only [Bool.or_eq_true, Bool.not_eq_true', not_or, Bool.not_eq_false, Bool.not_eq_true] at hcond
+      have hfl : lsL'.st.fail = false := by rw [hf'.2.2]; exact hcond.2
+      simp only [hfl, Bool.not_true, Bool.or_self, Bool.false_eq_true, if_false]
+      have hm := members_sim c D K gL gE hp.hdr secsL secsE hsec
+      rw [hm]
+      exact ih (i + 1) lsL' lsE' _ _ hf' ⟨by rw [ho'.1, hO.1], by rw [ho'.2, hO.2]⟩
+        (Forall2.cons (hp.upd i _) hA) hok
+
+/-! #### assembly -/
+
+theorem loadSections_sim (c : Cls) (enc : Enc) (hdr : Bytes) (st : IStream)
+    (h63 : st.data.length < 9223372036854775808) :
+    Forall2 (SecPair c st.data st.kind) (loadSections c enc [] true hdr st).2 (loadSections c enc [] false hdr st).2 ∧
+    FlagEq (loadSections c enc [] true hdr st).1.st (loadSections c enc [] false hdr st).1.st ∧
+    Over st.data st.kind (loadSections c enc [] false hdr st).1 ∧
+    (∀ b, b ∈ (loadSections c enc [] true hdr st).2 →
+      SsOk st.data.length (loadSections c enc [] true hdr st).1 b) := by
+  unfold loadSections
+  split
+  · exact ⟨Forall2.nil, FlagEq.refl _, ⟨rfl, rfl⟩, fun b hb => absurd hb (by simp)⟩
+  · exact loadSectionsLoop_sim c enc st.data st.kind h63 _ _ _ 0 { st := st } { st := st } [] []
+      (FlagEq.refl _) ⟨rfl, rfl⟩ Forall2.nil (fun b hb => absurd hb (by simp))
+
+/-- everything after the gate: if the eager run succeeds, the lazy run succeeds with pairwise
+    equivalent sections and segments -/
+theorem loadBody_sim (o : Obj) (c : Cls) (enc : Enc) (hdr : Bytes) (st : IStream) (htr : o.trans = [])
+    (h63 : st.data.length < 9223372036854775808) (re : LoadRes)
+    (he : loadBody o c enc hdr st false = .ok re) (hok : re.ok = true) :
+    ∃ rl, loadBody o c enc hdr st true = .ok rl ∧ rl.ok = true ∧
+      rl.obj.cls = re.obj.cls ∧ rl.obj.enc = re.obj.enc ∧ rl.obj.hdr = re.obj.hdr ∧
+      Forall2 (SecPair c st.data st.kind) rl.obj.secs re.obj.secs ∧
+      Forall2 (SegPair c st.data st.kind) rl.obj.segs re.obj.segs := by
+  obtain ⟨s1, s2, s3, s4⟩ := loadSections_sim c enc hdr st h63
+  unfold loadBody at he ⊢
+  rw [htr] at he ⊢
+  simp only [bind, Except.bind] at he ⊢
+  cases hn : loadNames c enc [] hdr (loadSections c enc [] false hdr st).1 (loadSections c enc [] false hdr st).2 with
+  | error f => rw [hn] at he; exact absurd he (by simp)
+  | ok pE =>
+    rw [hn] at he
+    obtain ⟨pL, n1, n2, n3, n4⟩ := loadNames_sim c enc hdr st.data st.kind h63 _ _ _ _ s2 s3 s1 s4 pE hn
+    rw [n1]
+    simp only [pure, Except.pure, Except.ok.injEq] at he ⊢
+    refine ⟨_, rfl, ?_⟩
+    subst he
+    unfold loadSegs at hok ⊢
+    split at hok
+    · exact absurd hok (by simp)
+    · rename_i hb
+      simp only [hb, Bool.false_eq_true, if_false] at hok ⊢
+      rw [htr] at hok ⊢
+      obtain ⟨g1, g2⟩ := loadSegmentsLoop_sim c enc st.data st.kind h63 _ _ pL.2 pE.2 n2 _ 0 pL.1 pE.1 [] []
+        n3 n4 Forall2.nil hok
+      refine ⟨g1, ?_, ?_, ?_, n2, g2⟩ <;> first | trivial | rfl
+
+theorem loadBody_cls (o : Obj) (c : Cls) (enc : Enc) (hdr : Bytes) (st : IStream) (isLazy : Bool) (r : LoadRes)
+    (h : loadBody o c enc hdr st isLazy = .ok r) : r.obj.cls = o.cls := by
+  unfold loadBody at h
+  simp only [bind, Except.bind] at h
+  split at h
+  · exact absurd h (by simp)
+  · simp only [pure, Except.pure, Except.ok.injEq] at h
+    rw [← h]
+    unfold loadSegs
+    split <;> rfl
+
+/-- **lazy = eager, every image** (no address translation, image shorter than 2^63 bytes) : if the
+    eager `load` succeeds, the lazy `load` succeeds, with the same header, and every section and
+    segment pairwise equivalent (`SecPair` / `SegPair`: see `lazy_eq_eager_obs`).
+    The hypothesis `re.ok = true` excludes exactly the open finding F15
+    (`lazy_load_unreadable_segment_witness`). -/
+theorem lazy_eq_eager (o : Obj) (st : IStream) (htr : o.trans = [])
+    (h63 : st.data.length < 9223372036854775808) (re : LoadRes)
+    (he : load o st false = .ok re) (hok : re.ok = true) :
+    ∃ rl, load o st true = .ok rl ∧ rl.ok = true ∧
+      rl.obj.cls = re.obj.cls ∧ rl.obj.enc = re.obj.enc ∧ rl.obj.hdr = re.obj.hdr ∧
+      Forall2 (SecPair re.obj.cls st.data st.kind) rl.obj.secs re.obj.secs ∧
+      Forall2 (SegPair re.obj.cls st.data st.kind) rl.obj.segs re.obj.segs := by
+  rw [load_eq] at he ⊢
+  simp only [] at he ⊢
+  have hfail : ∀ (o' : Obj) (s : IStream), loadFail o' s = .ok re → False := by
+    intro o' s h
+    simp only [loadFail, pure, Except.pure, Except.ok.injEq] at h
+    rw [← h] at hok; exact absurd hok (by simp)
+  split at he
+  · exact absurd he (fun h => hfail _ _ h)
+  · split at he
+    · exact absurd he (fun h => hfail _ _ h)
+    · rename_i h1 h2
+      simp only [h1, h2, Bool.false_eq_true, if_false]
+      generalize clsOfByte _ = x at he ⊢
+      generalize encOfByte _ = y at he ⊢
+      cases x with
+      | none => simp only [] at he; exact (hfail _ _ he).elim
+      | some c =>
+        cases y with
+        | none => simp only [] at he; exact (hfail _ _ he).elim
+        | some enc =>
+          simp only [] at he ⊢
+          split at he
+          · exact (hfail _ _ he).elim
+          · rename_i h3
+            simp only [h3, Bool.false_eq_true, if_false]
+            have hd : ((( st.seekg (trApply o.trans 0)).read 16).1.seekg (trApply o.trans 0) |>.read (ehdrSize c)).1.data = st.data := by simp
+            have hk : ((( st.seekg (trApply o.trans 0)).read 16).1.seekg (trApply o.trans 0) |>.read (ehdrSize c)).1.kind = st.kind := by simp
+            have hb := loadBody_sim (c := c) (enc := enc) (re := re) (he := he) (hok := hok) (htr := by exact htr)
+              (h63 := by rw [hd]; exact h63)
+            rw [hd, hk] at hb
+            have hcls : re.obj.cls = c := loadBody_cls _ c enc _ _ false re he
+            rw [hcls]
+            rw [hcls] at hb
+            exact hb
+
+/-- **C15, lazy part, in observations** : for every image (no translation, shorter than 2^63 bytes)
+    whose eager load succeeds, the lazy load succeeds and — for every section and every segment, after
+    ANY interleaving of data requests, data releases and arbitrary stream movements / error states
+    on the lazily loaded object — a data request shows exactly what the eagerly loaded object shows
+    (all header fields, name, data buffer, data size; members of segments). -/
+theorem lazy_eq_eager_obs (o : Obj) (st : IStream) (htr : o.trans = [])
+    (h63 : st.data.length < 9223372036854775808) (re : LoadRes)
+    (he : load o st false = .ok re) (hok : re.ok = true) :
+    ∃ rl, load o st true = .ok rl ∧ rl.ok = true ∧ rl.obj.cls = re.obj.cls ∧ rl.obj.enc = re.obj.enc ∧
+      rl.obj.hdr = re.obj.hdr ∧
+      rl.obj.secs.length = re.obj.secs.length ∧ rl.obj.segs.length = re.obj.segs.length ∧
+      (∀ i (h1 : i < rl.obj.secs.length) (h2 : i < re.obj.secs.length) (ops : List DataOp) (ls1 ls2 : LoadSt),
+        Over st.data st.kind ls1 → Over st.data st.kind ls2 →
+        secObs (secGetData re.obj.cls [] (runSecOps re.obj.cls [] ls1 rl.obj.secs[i] ops).1
+                  (runSecOps re.obj.cls [] ls1 rl.obj.secs[i] ops).2).2 =
+          secObs (secGetData re.obj.cls [] ls2 re.obj.secs[i]).2) ∧
+      (∀ j (h1 : j < rl.obj.segs.length) (h2 : j < re.obj.segs.length) (ops : List DataOp) (ls1 ls2 : LoadSt),
+        Over st.data st.kind ls1 → Over st.data st.kind ls2 →
+        segObs (segGetData re.obj.cls [] (runSegOps re.obj.cls [] ls1 rl.obj.segs[j] ops).1
+                  (runSegOps re.obj.cls [] ls1 rl.obj.segs[j] ops).2).2 =
+          segObs (segGetData re.obj.cls [] ls2 re.obj.segs[j]).2) := by
+  obtain ⟨rl, a1, a2, a3, a4, a5, a6, a7⟩ := lazy_eq_eager o st htr h63 re he hok
+  refine ⟨rl, a1, a2, a3, a4, a5, forall2_length a6, forall2_length a7, ?_, ?_⟩
+  · intro i h1 h2 ops ls1 ls2 o1 o2
+    exact (forall2_get a6 i h1 h2).obs ops ls1 ls2 o1 o2
+  · intro j h1 h2 ops ls1 ls2 o1 o2
+    exact (forall2_get a7 j h1 h2).obs ops ls1 ls2 o1 o2
+
+/-- non-vacuity beyond well-formed images: `.text` claims 0x1004 bytes in a 228-byte file — not
+    well-formed, yet the eager load succeeds, so `lazy_eq_eager` applies -/
+def truncImage : Bytes :=
+  [127, 69, 76, 70, 1, 1, 1, 0, 0, 0, 0, 0, 0, 0, 0, 0, 2, 0, 3, 0, 1, 0, 0, 0, 0, 16, 0, 0, 52, 0, 0, 0, 108, 0, 0, 0, 0, 0, 0, 0, 52, 0, 32, 0, 1, 0, 40, 0, 3, 0, 2, 0, 1, 0, 0, 0, 84, 0, 0, 0, 0, 16, 0, 0, 0, 16, 0, 0, 4, 0, 0, 0, 4, 0, 0, 0, 5, 0, 0, 0, 4, 0, 0, 0, 1, 2, 3, 4, 0, 46, 116, 101, 120, 116, 0, 46, 115, 104, 115, 116, 114, 116, 97, 98, 0, 0, 0, 0, 0, 0, 0, 0, 0, 0, 0, 0, 0, 0, 0, 0, 0, 0, 0, 0, 0, 0, 0, 0, 0, 0, 0, 0, 0, 0, 0, 0, 0, 0, 0, 0, 0, 0, 0, 0, 0, 0, 0, 0, 1, 0, 0, 0, 1, 0, 0, 0, 6, 0, 0, 0, 0, 16, 0, 0, 84, 0, 0, 0, 4, 16, 0, 0, 0, 0, 0, 0, 0, 0, 0, 0, 4, 0, 0, 0, 0, 0, 0, 0, 7, 0, 0, 0, 3, 0, 0, 0, 0, 0, 0, 0, 0, 0, 0, 0, 88, 0, 0, 0, 17, 0, 0, 0, 0, 0, 0, 0, 0, 0, 0, 0, 1, 0, 0, 0, 0, 0, 0, 0]
+
+example : ¬ C02.WellFormedImage truncImage ∧ loadOk (load {} { data := truncImage } false) = some true := by
+  decide +kernel
+
+/-- the statement of `lazy_eq_eager` without the `re.ok` hypothesis is false (F15) -/
+theorem lazy_eq_eager_needs_ok :
+    ¬ (∀ (o : Obj) (st : IStream) (re : LoadRes), o.trans = [] → st.data.length < 9223372036854775808 →
+        load o st false = .ok re → ∃ rl, load o st true = .ok rl ∧ rl.ok = re.ok) := by
+  intro h
+  have w := lazy_load_unreadable_segment_witness
+  cases he : load {} { data := f15Image } false with
+  | error f => rw [he] at w; exact absurd w.1 (by simp [loadOk])
+  | ok re =>
+    obtain ⟨rl, h1, h2⟩ := h {} { data := f15Image } re rfl (by decide) he
+    rw [he, h1] at w
+    simp only [loadOk, Option.some.injEq] at w
+    rw [h2, w.1] at w
+    exact absurd w.2 (by simp)
+
 end ElfioVerif.C15
